@@ -84,6 +84,8 @@ class VecEval:
                 raise AnalysisBroken("Point constructor %s" % norm.render(P, n)[:50])
             if len(args) == 1:
                 return r(args[0])
+            if "array<double" in (n.get("t") or "") and args:
+                return tuple(r(a) for a in args)
             raise AnalysisBroken("constructor %s" % norm.render(P, n)[:50])
         if k == "UnaryOperator":
             v = r(c[0])
@@ -163,6 +165,13 @@ class VecEval:
             if base in ("min", "max") and len(args) == 2:
                 return (sp.Min if base == "min" else sp.Max)(*args)
             raise AnalysisBroken("call to %s" % (qn or "?"))
+        if k == "InitListExpr":
+            vals = [r(x) for x in c if x is not None]
+            if len(vals) == 1 and isinstance(vals[0], tuple):
+                return vals[0]
+            if vals and not any(isinstance(v, tuple) for v in vals):
+                return tuple(vals)
+            raise AnalysisBroken("initialiser list %s" % norm.render(P, n)[:40])
         if k == "ConditionalOperator":
             cv = r(c[0])
             t = self.decide(cv, c[0])
